@@ -27,6 +27,7 @@ class Task:
         self.name = name
         self.go = threading.Semaphore(0)
         self.enabled = None          # callable: may the pending operation be performed now?
+        self.idle_ok = False         # a timed wait: may also go on when NO task is runnable (its timeout expires)
         self.finished = False
         self.exc = None              # exception that ended the task's function, if any
         self.thread = None
@@ -58,17 +59,21 @@ class Scheduler:
         t = self.current()
         return t.tid if t is not None else -1
 
-    def park(self, enabled=None):
-        """Yield point: returns when the scheduler lets this task perform its operation."""
+    def park(self, enabled=None, or_when_idle=False):
+        """Yield point: returns when the scheduler lets this task perform its operation.  With or_when_idle a
+        task whose operation is not enabled is also let go when no task at all is runnable (a timed wait whose
+        timeout expires: virtual time only passes when nothing else can happen)."""
         task = self.current()
         if task is None:              # not one of ours (e.g. the harness thread itself): no scheduling
             return
         if self.aborting:
             raise Abort()
         task.enabled = enabled or _always
+        task.idle_ok = or_when_idle
         self.waiter.release()
         task.go.acquire()
         task.enabled = None
+        task.idle_ok = False
         if self.aborting:
             raise Abort()
 
@@ -123,6 +128,8 @@ class Scheduler:
                 if all(t.finished for t in self.tasks):
                     break
                 ready = self._runnable()
+                if not ready:                 # nothing can happen: timed waits expire
+                    ready = [t for t in self.tasks if not t.finished and t.enabled is not None and t.idle_ok]
                 if not ready:
                     self.deadlock = True
                     break
@@ -174,6 +181,7 @@ class SchedSemaphore:
     def __init__(self, sched, value=1, log=None):
         self.sched = sched
         self.count = value
+        self.initial = value
         self.log = log
         self.n_failed_tries = 0
 
@@ -242,15 +250,25 @@ class SchedQueue:
             self.log.append((tid, "put", self.describe(item)))
 
     def get(self, block=True, timeout=None):
+        """A blocking get is enabled only when the queue is non-empty.  A timed get may also go on when NO task is
+        runnable (then it raises queue.Empty: polling loops terminate); a non-blocking get is always enabled and
+        raises queue.Empty when there is nothing.  Only blocking gets count for `get_faults`."""
         if not self.carry:
-            k = self.ngets
-            self.ngets += 1
-            if k in self.get_faults:       # an interrupt arriving while blocked in get()
-                self.sched.park()
-                if self.log is not None:
-                    self.log.append((self.sched.current_tid(), "getintr"))
-                raise self.exc()
-            self.sched.park(lambda: len(self.items) > 0)
+            if block:
+                k = self.ngets
+                self.ngets += 1
+                if k in self.get_faults:       # an interrupt arriving while blocked in get()
+                    self.sched.park()
+                    if self.log is not None:
+                        self.log.append((self.sched.current_tid(), "getintr"))
+                    raise self.exc()
+            if block and timeout is None:
+                self.sched.park(lambda: len(self.items) > 0)
+            else:
+                self.sched.park(lambda: len(self.items) > 0, or_when_idle=True) if block else self.sched.park()
+                if not self.items:
+                    import queue as _queue
+                    raise _queue.Empty()
         item = self.items.pop(0)
         if self.invisible(item):
             self.carry = True
@@ -260,6 +278,31 @@ class SchedQueue:
         if self.log is not None:
             self.log.append((self.sched.current_tid(), "get", self.describe(item)))
         return item
+
+
+def _queue_extras():
+    def get_nowait(self):
+        return self.get(False)
+
+    def put_nowait(self, item):
+        return self.put(item, False)
+
+    def empty(self):
+        return not self.items
+
+    def qsize(self):
+        return len(self.items)
+
+    def full(self):
+        return False
+
+    def task_done(self):
+        pass
+    return dict(get_nowait=get_nowait, put_nowait=put_nowait, empty=empty, qsize=qsize, full=full, task_done=task_done)
+
+
+for _name, _fn in _queue_extras().items():
+    setattr(SchedQueue, _name, _fn)
 
 
 class SchedThread:
@@ -291,13 +334,174 @@ class SchedThread:
             self.log.append((self.sched.current_tid(), "spawn", self.index))
         self.task = self.sched.spawn(self.run, name=self.name)
 
+    join_hook = None   # optional callable(thread): runs first in join() (fault injection: may park, log and raise)
+
     def join(self, timeout=None):
-        self.sched.park(lambda: self.task is None or self.task.finished)
+        if self.join_hook is not None:
+            type(self).join_hook(self)
+        done = lambda: self.task is None or self.task.finished
+        if timeout is None:
+            self.sched.park(done)
+        else:                         # a timed join returns when the thread has ended or nothing else can happen
+            self.sched.park(done, or_when_idle=True)
+            if not done():
+                return
         if self.log is not None:
             self.log.append((self.sched.current_tid(), "join", self.index))
 
+    @property
+    def ident(self):
+        return None if self.task is None else 1000 + self.task.tid
+
+    def getName(self):
+        return self.name
+
+    def setName(self, name):
+        self.name = name
+
+    def isDaemon(self):
+        return bool(self.daemon)
+
+    def setDaemon(self, daemonic):
+        self.daemon = daemonic
+
     def is_alive(self):
         return self.task is not None and not self.task.finished
+
+
+class SchedBoundedSemaphore(SchedSemaphore):
+    def release(self, n=1):
+        if self.count + n > self.initial:
+            raise ValueError("Semaphore released too many times")
+        SchedSemaphore.release(self, n)
+
+
+class SchedLock(SchedSemaphore):
+    """threading.Lock stand-in: a binary semaphore (same yield points, same log entries) that knows whether it is
+    locked and refuses to be released when it is not."""
+
+    def __init__(self, sched, log=None):
+        SchedSemaphore.__init__(self, sched, 1, log)
+
+    def locked(self):
+        return self.count == 0
+
+    def release(self):
+        if self.count != 0:
+            raise RuntimeError("release unlocked lock")
+        SchedSemaphore.release(self, 1)
+
+
+class SchedRLock:
+    """threading.RLock stand-in: only the outermost acquire / release of the owning task touch the shared state
+    (and are yield points, logged like a semaphore's)."""
+
+    def __init__(self, sched, log=None):
+        self.sched = sched
+        self.inner = SchedSemaphore(sched, 1, log)
+        self.owner = None
+        self.depth = 0
+
+    @property
+    def count(self):
+        return self.inner.count
+
+    initial = 1
+
+    def acquire(self, blocking=True, timeout=-1):
+        me = self.sched.current_tid()
+        if self.owner == me and self.depth > 0:
+            self.depth += 1
+            return True
+        ok = self.inner.acquire(blocking, None if timeout in (-1, None) else timeout)
+        if ok:
+            self.owner, self.depth = me, 1
+        return ok
+
+    def release(self):
+        if self.owner != self.sched.current_tid() or self.depth == 0:
+            raise RuntimeError("cannot release un-acquired lock")
+        self.depth -= 1
+        if self.depth == 0:
+            self.owner = None
+            self.inner.release()
+
+    __enter__ = acquire
+
+    def __exit__(self, *a):
+        self.release()
+
+
+class SchedEvent:
+    """threading.Event stand-in: wait() is a yield point enabled when the flag is set (a timed wait also when
+    nothing else can happen); set() / clear() are yield points too."""
+
+    def __init__(self, sched):
+        self.sched = sched
+        self.flag = False
+
+    def is_set(self):
+        return self.flag
+
+    isSet = is_set
+
+    def set(self):
+        self.sched.park()
+        self.flag = True
+
+    def clear(self):
+        self.sched.park()
+        self.flag = False
+
+    def wait(self, timeout=None):
+        self.sched.park(lambda: self.flag, or_when_idle=timeout is not None)
+        return self.flag
+
+
+class SchedCondition:
+    """threading.Condition stand-in over a scheduler-aware lock: wait() releases the lock, parks until notified
+    (a timed wait also when nothing else can happen) and re-acquires it."""
+
+    def __init__(self, sched, lock):
+        self.sched = sched
+        self.lock = lock
+        self.tickets = []
+        self.acquire = lock.acquire
+        self.release = lock.release
+
+    def __enter__(self):
+        return self.lock.acquire()
+
+    def __exit__(self, *a):
+        self.lock.release()
+
+    def wait(self, timeout=None):
+        ticket = [False]
+        self.tickets.append(ticket)
+        self.lock.release()
+        self.sched.park(lambda: ticket[0], or_when_idle=timeout is not None)
+        if ticket in self.tickets:
+            self.tickets.remove(ticket)
+        self.lock.acquire()
+        return ticket[0]
+
+    def wait_for(self, predicate, timeout=None):
+        result = predicate()
+        while not result:
+            if not self.wait(timeout) and timeout is not None:
+                return predicate()
+            result = predicate()
+        return result
+
+    def notify(self, n=1):
+        for ticket in self.tickets[:n]:
+            ticket[0] = True
+        del self.tickets[:n]
+
+    def notify_all(self):
+        self.notify(len(self.tickets))
+
+    notifyAll = notify_all
 
 
 class ThreadingNamespace:
@@ -321,5 +525,45 @@ class ThreadingNamespace:
             ns.semaphores.append(s)
             return s
         self.Semaphore = Semaphore
-        self.current_thread = threading.current_thread
-        self.get_ident = threading.get_ident
+
+        # the rest of the small vocabulary a rewrite of the code under test may use; every mutual exclusion
+        # object is registered in `semaphores` (count / initial) and logs acquire / release like a semaphore
+        def BoundedSemaphore(value=1):
+            s = SchedBoundedSemaphore(sched, value, sem_log)
+            ns.semaphores.append(s)
+            return s
+
+        def Lock():
+            s = SchedLock(sched, sem_log)
+            ns.semaphores.append(s)
+            return s
+
+        def RLock():
+            s = SchedRLock(sched, sem_log)
+            ns.semaphores.append(s)
+            return s
+
+        def Event():
+            return SchedEvent(sched)
+
+        def Condition(lock=None):
+            return SchedCondition(sched, lock if lock is not None else RLock())
+        self.BoundedSemaphore, self.Lock, self.RLock, self.Event, self.Condition = \
+            BoundedSemaphore, Lock, RLock, Event, Condition
+
+        def current_thread():
+            task = sched.current()
+            for th in ns.threads:
+                if th.task is not None and th.task is task:
+                    return th
+            return threading.current_thread()
+
+        def get_ident():
+            task = sched.current()
+            return threading.get_ident() if task is None else 1000 + task.tid
+        self.current_thread = current_thread
+        self.get_ident = get_ident
+        self.main_thread = threading.main_thread
+        self.active_count = lambda: 1 + sum(1 for th in ns.threads if th.is_alive())
+        self.enumerate = lambda: [threading.current_thread()] + [th for th in ns.threads if th.is_alive()]
+        self.TIMEOUT_MAX = threading.TIMEOUT_MAX
